@@ -1289,8 +1289,10 @@ def handwritten_execute(case):
                 if via == "file":
                     out.check(isinstance(raised, InvalidSettingsFileError), "handwritten/invalid-file-error-type",
                               lambda: "reading a file with an invalid value raised %r, documented: InvalidSettingsFileError" % (raised,))
-            out.check(psame(got[key], before[key]), "handwritten/rejected-value-replaced-previous",
-                      lambda: "%s: rejected %r, previous value %r, now %r" % (key, pv, before[key], got[key]))
+            # "previous" = the value in place when the rejected entry is reached: an earlier entry of the same file may
+            # already have set this setting (under its current or an old name); the reader applies entries in file order
+            out.check(psame(got[key], expect[key]), "handwritten/rejected-value-replaced-previous",
+                      lambda: "%s: rejected %r, value in place before that entry %r, now %r" % (key, pv, expect[key], got[key]))
         else:
             if raised is not None:
                 sig = SIG_UPLUG if (via == "file" and expect.get("userPlugins") is None and "NoneType" in str(raised)) else "handwritten/valid-file-refused"
